@@ -115,7 +115,7 @@ impl SparseScriptTable {
             for (key, value) in ident_map {
                 if &key == "default" {
                     default = Some(value);
-                } else if let Ok(num) = key.as_str().parse() {
+                } else if let Some(num) = key.as_str().parse::<u32>().ok().filter(|&num| num < u32::MAX) {  // (table length is max + 1)
                     let old_value = int_map.insert(sp!(key.span => num), value);
                     assert!(old_value.is_none(), "duplicate integer key; was one non-canonical?!");
                 } else {
